@@ -635,7 +635,9 @@ class Check(PropertyCheck):
                   "exhaustive); float literals are tokens (Python float()/repr() assumed to round-trip; the model only decides "
                   "which literals float() accepts); Flow.from_state∘compat.migrate_flow and the HAR importer are parameters "
                   "of the reader model (any outcome, exceptions classified ValueError / other Exception / non-Exception; "
-                  "never_other assumes they raise no BaseException outside Exception); recursion head-room and allocation "
+                  "never_other assumes they raise no BaseException outside Exception, and — being total functions in the model — that they "
+                  "terminate: the real migrate_flow did not (F-C36d, fixed), termination is checked by the harness with a per-case "
+                  "timeout only); recursion head-room and allocation "
                   "limit are environment parameters, measured/inferred in the tie; round-trip hypotheses: dict keys are "
                   "null/int/bytes/str and pairwise distinct, str payloads are valid UTF-8, ints have <= 4300 digits, "
                   "float tokens are accepted literals, record size < 10^12 bytes, nesting within the recursion head-room.")
@@ -646,8 +648,8 @@ class Check(PropertyCheck):
             "1-4 flows of random types with every serialised field randomised, written with FlowWriter and read back; mut: "
             "flow files after byte-level and state-level mutations, some through real files with huge length prefixes. "
             "distinct = distinct case content; non-trivial = non-empty input.")
-    budget = {"quick": 7000, "thorough": 420000}
-    time_budget = {"quick": 22, "thorough": 330}
+    budget = {"quick": 6000, "thorough": 420000}
+    time_budget = {"quick": 18, "thorough": 330}
     fingerprints = ["mitmproxy.io.tnetstring:dumps", "mitmproxy.io.tnetstring:dump", "mitmproxy.io.tnetstring:_rdumpq",
                     "mitmproxy.io.tnetstring:load", "mitmproxy.io.tnetstring:parse", "mitmproxy.io.tnetstring:split",
                     "mitmproxy.io.tnetstring:pop", "mitmproxy.io.tnetstring:loads", "mitmproxy.io.io:FlowReader.stream",
